@@ -27,6 +27,9 @@ def run(v):
     big = D.conv_family(SEED + 1050, 30, max_named=6, maxlen=3, budget=10**9) + D.cmd_family(SEED + 1051, 20, depth=3, budget=10**9)
     cov = run_cmdline_property(v, families(v.tier), "MC_CmdLine_design.cfg", signature=cmdline_sig.signature, ledger_every=(6 if v.tier == "quick" else 1),
                                driver={"defs": big, "n": 20000 if v.tier == "quick" else 300000, "maxlen": 12, "mutate": 0.8})
+    # `last` over positional items (an attempt that consumed a word and was rolled back leaves the word where it was)
+    lcov = run_cmdline_property(v, D.poslast_family(SEED + 62, maxlen=3 if v.tier == "quick" else 4), None, signature=cmdline_sig.signature, name="C05l")
+    cov = merge_cov(cov, lcov, "positional_last")
     # the same property on choices, optional/repeated groups and adjacent groups (GroupLine engine)
     gfam = (D.group_family(SEED, 4, 3000) + D.alt_family(SEED + 53, 15, maxlen=4, budget=3000) + D.adj_family(SEED + 54, 9, maxlen=5, budget=3000) + D.acmd_family(SEED + 55, 6, maxlen=4, budget=3000) + D.acmd_hole_defs(SEED)) if v.tier == "quick" \
         else (D.group_family(SEED, 5, 40000) + D.alt_family(SEED + 53, 80, maxlen=5, budget=40000) + D.adj_family(SEED + 54, 45, maxlen=6, budget=40000) + D.acmd_family(SEED + 55, 30, maxlen=6, budget=40000) + D.acmd_hole_defs(SEED))
